@@ -155,7 +155,7 @@ func (obj *SparseReal32Vector) APPEND(w *SparseReal32Vector) *SparseReal32Vector
   r.n = obj.n + w.Dim()
   for it := w.ITERATOR(); it.Ok(); it.Next() {
     i := obj.n+it.Index()
-    r.values[i] = it.GET()
+    r.values[i] = it.GET().Clone()
     r.indexInsert(i)
   }
   return r
@@ -252,7 +252,7 @@ func (obj *SparseReal32Vector) AppendScalar(scalars ...Scalar) Vector {
   for i, scalar := range scalars {
     switch s := scalar.(type) {
     case *Real32:
-      r.values[obj.n+i] = s
+      r.values[obj.n+i] = s.Clone()
     default:
       r.values[obj.n+i] = s.ConvertScalar(Real32Type).(*Real32)
     }
@@ -268,7 +268,10 @@ func (obj *SparseReal32Vector) AppendVector(w_ Vector) Vector {
     r := obj.Clone()
     r.n = obj.n + w.Dim()
     for it := w.Iterator(); it.Ok(); it.Next() {
-      r.values[obj.n+it.Index()] = it.Get().ConvertScalar(Real32Type).(*Real32)
+      // the elements of w may have the same scalar type, do not share them
+      s := NullReal32()
+      s.Set(it.Get())
+      r.values[obj.n+it.Index()] = s
       r.indexInsert(obj.n+it.Index())
     }
     return r
@@ -393,7 +396,7 @@ func (obj *SparseReal32Vector) AppendMagicScalar(scalars ...MagicScalar) MagicVe
   for i, scalar := range scalars {
     switch s := scalar.(type) {
     case *Real32:
-      r.values[obj.n+i] = s
+      r.values[obj.n+i] = s.Clone()
     default:
       r.values[obj.n+i] = s.ConvertMagicScalar(Real32Type).(*Real32)
     }
@@ -409,7 +412,10 @@ func (obj *SparseReal32Vector) AppendMagicVector(w_ MagicVector) MagicVector {
     r := obj.Clone()
     r.n = obj.n + w.Dim()
     for it := w.MagicIterator(); it.Ok(); it.Next() {
-      r.values[obj.n+it.Index()] = it.GetMagic().ConvertMagicScalar(Real32Type).(*Real32)
+      // the elements of w may have the same scalar type, do not share them
+      s := NullReal32()
+      s.Set(it.GetMagic())
+      r.values[obj.n+it.Index()] = s
       r.indexInsert(obj.n+it.Index())
     }
     return r
